@@ -27,7 +27,7 @@ REQUIRED_COUNTERS = ['orders_checked', 'permutations_checked']
 D = decimal.Decimal
 CLASSES = ['int', 'float', 'decimal', 'mixed', 'huge', 'highprec', 'negzero', 'text', 'text_unicode',
            'num_num', 'num_text', 'text_num', 'text_text', 'fmt_pad', 'fmt_sep', 'callable', 'multi_resource', 'overflow',
-           'nan_present', 'infinite']
+           'nan_present', 'infinite', 'fmt_mixed_spec', 'number_subclasses']
 
 
 def gen_cases(tier, seed):
@@ -61,6 +61,9 @@ def keyval(rng, c):
     if c == 'nan_present':
         # NaN has no place in the order; the other keys still have theirs and nothing may fail
         return rng.choice([D('NaN'), float('nan'), 1, 2.5, D('-3'), 0, D('7.25')])
+    if c == 'number_subclasses':
+        # numbers that are instances of SUBCLASSES of int / float / Decimal (an IntEnum member, a boolean, a Decimal subclass)
+        return rng.choice([Level.LOW, Level.HIGH, Level.MID, True, False, Money('9.5'), Money('100'), 2, 10, 1.5, D('30')])
     if c == 'infinite':
         # the Table Schema numbers INF / -INF (Decimal as the library casts them, float as user code computes them)
         return rng.choice([D('-Infinity'), D('Infinity'), float('inf'), float('-inf'), D('5'), D('-100'), 1, 0, 2.5])
@@ -77,6 +80,19 @@ def keyval(rng, c):
     if c == 'text_unicode':
         return rng.choice(TEXT_U)
     raise KeyError(c)
+
+
+import enum                 # noqa: E402
+
+
+class Level(enum.IntEnum):
+    LOW = 3
+    MID = 20
+    HIGH = 100
+
+
+class Money(D):
+    pass
 
 
 def exact(v):
@@ -180,8 +196,15 @@ def run_case(case):
     reverse = rng.random() < 0.4
     batch = rng.choice([1, 2, 7, 1000]) if n <= 1000 else rng.choice([7, 1000])
     # key fields + typed key function
-    if c in ('int', 'float', 'decimal', 'mixed', 'huge', 'highprec', 'negzero', 'text', 'text_unicode', 'overflow',
-             'nan_present', 'infinite'):
+    if c == 'fmt_mixed_spec':
+        # a plain numeric field followed by a field with a format spec: each part keeps its own meaning
+        rows = [{'id': i, 'k': keyval(rng, 'mixed'), 'm': rng.randint(0, 99)} for i in range(n)]
+        form = rng.choice(['num_then_spec', 'spec_then_num'])
+        key = {'num_then_spec': '{k}{m:02}', 'spec_then_num': '{m:02}{k}'}[form]
+        tkey = (lambda r: (exact(r['k']), '%02d' % r['m'])) if form == 'num_then_spec' else \
+            (lambda r: ('%02d' % r['m'], exact(r['k'])))
+    elif c in ('int', 'float', 'decimal', 'mixed', 'huge', 'highprec', 'negzero', 'text', 'text_unicode', 'overflow',
+               'nan_present', 'infinite', 'number_subclasses'):
         rows = [{'id': i, 'k': keyval(rng, c)} for i in range(n)]
         form = rng.choice(['fmt', 'list', 'tuple'])
         key = {'fmt': '{k}', 'list': ['k'], 'tuple': ('k',)}[form]
